@@ -3,6 +3,7 @@ package watchers
 import (
 	"context"
 	"fmt"
+	"math"
 	"sync"
 	"syscall"
 	"time"
@@ -34,8 +35,9 @@ func checkThreshold(total, free uint64, minSpaceRequired float64) error {
 		}
 	}
 
-	// Compare free space with threshold
-	if free < uint64(threshold) {
+	// Compare free space with threshold (rounded up: free is a whole number of bytes,
+	// so free < threshold is the same as free < ceil(threshold))
+	if free < uint64(math.Ceil(threshold)) {
 		return fmt.Errorf("low disk space: free=%.2f GB, threshold=%.2f GB", float64(free)/1e9, float64(threshold)/1e9)
 	}
 
